@@ -121,6 +121,9 @@ def with_history(p):
             p = dict(p, cfg=c2)
             if (h >> 12) % 3 == 0:
                 p["int_seconds"] = True
+    if (h >> 20) % 8 == 0 and "debug_log" not in p:
+        # the application runs the library's logger at DEBUG level (what is logged must not change what is done)
+        p = dict(p, debug_log=True)
     if (h >> 16) % 8 == 0 and "busy_lock" not in p:
         # other threads of the application keep the write lock busy: non-blocking probes fail, blocking acquisition succeeds
         p = dict(p, busy_lock=True)
